@@ -335,6 +335,24 @@ func cmdTotal(args []string) {
 		}
 		f.Close()
 	}
+	// length boundaries: accepted and refused expressions whose byte length sits on / next to a power of two, ending in
+	// ASCII, in a 2-, 3- or 4-byte character, in a lone continuation byte or in an invalid byte (fixed-size buffers,
+	// message abbreviation, rune boundaries)
+	for _, L := range []int{15, 16, 17, 31, 32, 33, 63, 64, 65, 127, 128, 129, 255, 256, 257, 258, 511, 512, 513, 1023, 1024, 1025,
+		4095, 4096, 4097, 65535, 65536, 65537} {
+		for _, suffix := range []string{"", "[@x", "[", "/", "|", " and", "'", ")", "[1]", "::", "("} {
+			for _, tail := range []string{"", "z", "\u00e9", "\u65e5", "\U0001d11e", "\x80", "\xff"} {
+				for d := -1; d <= 1; d++ {
+					k := L - 2 - len(suffix) - len(tail) + d
+					if k < 1 {
+						continue
+					}
+					lines++
+					check("//"+strings.Repeat("a", k)+suffix+tail, nil, "?")
+				}
+			}
+		}
+	}
 	// seeded: random token strings up to 40 tokens and byte-level mutations of valid expressions
 	alphabet := []string{"a", "b", "div", "and", "or", "mod", "*", "1", ".5", "'x'", "\"", "'", "/", "//", "|", "+", "-", "=", "!=", "<", "<=",
 		">", ">=", "(", ")", "[", "]", ",", "@", "::", ":", ".", "..", "$", "child", "ancestor-or-self", "text", "node", "count", "p:a", "p:*",
